@@ -413,6 +413,27 @@ Definition model_read_ok (c : ucase) : bool :=
   let '(_, _, chunks, cancel, real, why) := c in
   let r := reader (script_of chunks) cancel in
   msgs_eqb (map fst (rd_out r)) real && stop_eqb (rd_why r) why.
+(* at which read (1-based count of Read calls) the model delivers each message: an event is delivered while the read that
+   completed it is being processed, unless its bytes may still be incomplete *)
+Fixpoint at_from (script : list chunk) (left : bytes) (sent k : nat) (cancel : option nat) : list nat :=
+  match script with
+  | [] => []
+  | ReadErr :: _ => repeat k (length (rd_out (read_end left [] sent cancel)))
+  | ChunkErr bs :: _ => repeat k (length (rd_out (read_end left bs sent cancel)))
+  | Chunk bs :: rest =>
+    let b := left ++ bs in
+    match inner (length b) b (Nat.eqb (length bs) buf_size) sent cancel with
+    | IDone o s => repeat k (length o) ++ at_from rest [] s (S k) cancel
+    | ILeft o s r => repeat k (length o) ++ at_from rest r s (S k) cancel
+    | ICancel o | IPanic o => repeat k (length o)
+    | IFuel => []
+    end
+  end.
+Fixpoint nats_eqb (a b : list nat) : bool :=
+  match a, b with [], [] => true | x :: a', y :: b' => Nat.eqb x y && nats_eqb a' b' | _, _ => false end.
+(* (chunks, real read indices): the real reader delivered no message later than the model does *)
+Definition acase := (list bytes * list nat)%type.
+Definition at_ok (c : acase) : bool := let '(chunks, real) := c in nats_eqb (at_from (script_of chunks) [] 0 1 None) real.
 Definition enc_ok (c : ucase) : bool := let '(st, evs, chunks, _, _, _) := c in negb st || bytes_eqb (encode_all evs) (concat (filter (fun b => negb (is_mark b)) chunks)).
 Definition wf_ok (c : ucase) : bool := let '(st, evs, _, _, _, _) := c in st && wf_stream evs.
 Definition spec_ok (c : ucase) : bool :=
@@ -446,11 +467,11 @@ def coq_dcase(b, more, out):
     return "(%s, %s, %s)" % (C.zlist(b), "true" if more else "false", real)
 
 
-def evaluate(name, ucases=None, dcases=None, shard=100, timeout=1500):
+def evaluate(name, ucases=None, dcases=None, shard=100, timeout=1500, acases=None):
     """Evaluates model equality / spec predicates in Coq (vm_compute), sharded
     over parallel coqc processes.  Returns dict of failing index lists."""
     from concurrent.futures import ThreadPoolExecutor
-    res = {"model_read": [], "enc": [], "wf_false": [], "spec": [], "model_detect": []}
+    res = {"model_read": [], "enc": [], "wf_false": [], "spec": [], "model_detect": [], "at": []}
     jobs = []
 
     def shards(l):
@@ -468,6 +489,12 @@ def evaluate(name, ucases=None, dcases=None, shard=100, timeout=1500):
         body = ["Definition dcases : list dcase := [\n%s ]." % ";\n".join(part),
                 "Definition bad_detect := idx (fun c => negb (model_detect_ok c)) dcases 0%nat."]
         jobs.append(("%s_d%d" % (name, k), body, {"bad_detect": "model_detect"}, base))
+        k += 1
+
+    for base, part in shards(acases or []):
+        body = ["Definition acases : list acase := [\n%s ]." % ";\n".join(part),
+                "Definition bad_at := idx (fun c => negb (at_ok c)) acases 0%nat."]
+        jobs.append(("%s_a%d" % (name, k), body, {"bad_at": "at"}, base))
         k += 1
 
     def work(job):
@@ -552,7 +579,11 @@ def run_family(res, prop, prop_mod, cases, dcases=None, spec_on_streams=True, ru
     # (a script whose last read returns its bytes together with the error is marked by an impossible chunk [999] behind it)
     ucs = [coq_ucase(c["evs"], c["chunks"] + ([[999]] if c.get("err_with_last") else []), c["cancel"], o) for c, o in zip(cases, routs)]
     dcs = [coq_dcase(d["b"], d["more"], o) for d, o in zip(dcases, douts)]
-    ev = evaluate(prop, ucases=ucs, dcases=dcs)
+    at_idx = [i for i, (c, o) in enumerate(zip(cases, routs)) if c["cancel"] < 0 and o.get("why") == "err" and not c.get("greedy") and "at" in o]
+    acs = ["(%s, [%s])" % (coq_chunks(cases[i]["chunks"] + ([[999]] if cases[i].get("err_with_last") else [])),
+                            "; ".join("%d%%nat" % x for x in routs[i]["at"])) for i in at_idx]
+    ev = evaluate(prop, ucases=ucs, dcases=dcs, acases=acs)
+    ev["at"] = [at_idx[j] for j in ev["at"]]
     if ev["enc"]:
         i = ev["enc"][0]
         raise C.Fail("generator/Spec encode disagreement on case %d: %r" % (i, cases[i]["evs"]))
@@ -668,6 +699,17 @@ def run_family(res, prop, prop_mod, cases, dcases=None, spec_on_streams=True, ru
     for i, h in bad_held[:1]:
         res.violation("%s:held-back" % prop, "the input ended and %d byte(s) %s were never turned into a message" % (len(h), h[:8]),
                       {"chunks": cases[i]["chunks"], "real": routs[i].get("msgs"), "widths": routs[i].get("ref_w")})
+        found = True
+    # nothing complete is kept waiting: every message is delivered while the read that completed its event is being
+    # processed, unless its bytes could still be the beginning of a longer event (Spec = the model's need-more test,
+    # evaluated in Coq on the real delivery points: how many Read calls had been made when each message arrived)
+    bad_at = [i for i in ev["at"] if i not in ev["model_read"]]
+    if at_idx:
+        res.oblige("Spec on real output: no complete event is kept waiting for the next read (%d scripts)" % len(at_idx), not bad_at,
+                   [(cases[i]["chunks"][-2:], routs[i].get("at")) for i in bad_at[:2]])
+    for i in bad_at[:1]:
+        res.violation("%s:held-complete" % prop, "a message was delivered at a later read than the one that completed its event (reads at delivery: %s): bytes were held back although no longer event could begin with them" % (routs[i].get("at"),),
+                      {"chunks": cases[i]["chunks"], "real": routs[i].get("msgs"), "at": routs[i].get("at"), "err_with_last": bool(cases[i].get("err_with_last"))})
         found = True
     if real_oracle:
         bad = []
